@@ -197,6 +197,24 @@ class AllocNull:
                 for i in idxs:
                     if i < len(t['a']):
                         e = use(e, t['a'][i], ev, ctx, how(i))
+                if report and ev.get('top') and fn and any((fn, i) in getattr(A, 'tolerant', ()) for i in range(len(t['a']))):
+                    for i, arg in enumerate(t['a']):
+                        if (fn, i) not in A.tolerant:
+                            continue
+                        c = _call_of(arg)
+                        org = None
+                        if c and c.get('fn') in A.maynull:
+                            org = ('ctor', c['fn'], ev['loc'])
+                            run.instance(A.rule, '%s: %s(.., %s(), ..)' % (name, fn, c['fn']))
+                        else:
+                            a = ap(arg)
+                            if a and env.nullf(a) is None:
+                                org = env.ts.get('m:' + a) or env.ts.get('m:' + env.canon(a))
+                        if org is not None and org[0] == 'ctor':
+                            run.oblige(A.rule, False, '%s:%s:result-of-%s-ignored' % (name, org[1], fn))
+                            run.violation(A.rule, name, ev['loc'], 'unchecked:%s:ignored-by-%s' % (org[1], fn),
+                                          'the result of %s() is never tested here and goes to %s(), which reports a missing object through its return value - and that value '
+                                          'is ignored: the allocation failure is dropped silently and the operation reports success without the object' % (org[1], fn), ctx.path())
                 if e is not env0:
                     return [apply_generic(ev, e, R)]
                 return None
@@ -295,6 +313,26 @@ class AllocNull:
                     self.maynull.add(n)
             if len(self.maynull) == before:
                 break
+        # tolerant consumers: int functions that test a pointer parameter for NULL themselves, never dereference it untested, and so
+        # REPORT a missing object through their result (coap_insert_optlist(): `return node != NULL`)
+        self.tolerant = set()
+        for n, f in F.items():
+            if (f['ret'] or {}).get('p') or (f['ret'] or {}).get('t') in (None, 'void'):
+                continue
+            for i, p in enumerate(f['params']):
+                if not p.get('p') or p.get('pf'):
+                    continue
+                pv = 'v%d' % p['id']
+                tested = False
+                for b in f['blocks']:
+                    c = strip((b.get('term') or {}).get('cond'))
+                    while isinstance(c, dict) and c.get('k') == 'un' and c.get('op') == '!':
+                        c = strip(c['e'])
+                    if isinstance(c, dict) and (ap(c) == pv or (c.get('k') == 'bin' and c.get('op') in ('==', '!=') and (ap(c['l']) == pv or ap(c['r']) == pv) and (is_null_const(c['l']) or is_null_const(c['r'])))):
+                        tested = True
+                rets_cmp = any(ev['e'].get('k') == 'ret' and 'e' in ev['e'] and any(isinstance(y, dict) and y.get('k') == 'var' and ap(y) == pv for y in walk(ev['e']['e'])) for b, ev in self.P.events(f))
+                if tested or rets_cmp:
+                    self.tolerant.add((n, i))
         # parameter summaries: which pointer parameters are dereferenced before any test
         for rnd in range(3):
             changed = False
@@ -308,6 +346,7 @@ class AllocNull:
                     changed = True
             if not changed:
                 break
+        self.tolerant = set((n, i) for (n, i) in self.tolerant if i not in self.derefsum[n])
 
 
 def run(run, P, only=None):
